@@ -481,6 +481,7 @@ pub fn run(tier: &str, _seed: u64, outdir: &str) {
         let offer: Option<anoncreds::types::CredentialOffer> = get_json(offer_h).and_then(|v| serde_json::from_value(v).ok());
         let names = ["name", "age", "sex", "height"];
         let raws = ["Alex", "28", "male", "175"];
+        let mut e_cases: Vec<String> = vec![];
         let variants: Vec<(&str, Vec<Option<&str>>)> = vec![
             ("no-list", vec![]), ("full", vec![Some("11"), Some("28"), Some("33"), Some("175")]), ("all-null", vec![None, None, None, None]),
             ("null-first", vec![None, Some("28"), Some("33"), Some("175")]), ("null-middle", vec![Some("11"), None, Some("33"), Some("175")]),
@@ -517,9 +518,36 @@ pub fn run(tier: &str, _seed: u64, outdir: &str) {
                     return Some(false);
                 }
                 let got = get_json(ch)?;
+                // the same call judged by the marshalling rule of the model (Model/Ffi.v enc_values_call)
+                let mut triples: Vec<(String, String, String)> = got["values"].as_object()?.iter().map(|(k, v)| (k.clone(), v["raw"].as_str().unwrap_or("").to_string(), v["encoded"].as_str().unwrap_or("").to_string())).collect();
+                triples.sort();
+                e_cases.push(format!("E {} {} {} (ok {})", sx::list(names.iter(), |x| sx::s(x)), sx::list(raws.iter(), |x| sx::s(x)), sx::list(encs.iter(), |x| sx::opt(*x, |y| sx::s(y))),
+                    sx::list(triples.iter(), |(n, r, e)| format!("({} {} {})", sx::s(n), sx::s(r), sx::s(e)))));
                 Some(got["values"] == serde_json::to_value(&native).ok()?["values"])
             })();
             a(&format!("create_credential:encoded-values-{}", vname), equal == Some(true), &mut out);
+        }
+        // calls the rule refuses: no attribute at all; fewer raw values than names
+        for (ns, rs) in [(vec![], vec![]), (vec!["name", "age", "sex", "height"], vec!["Alex", "28", "male"])] {
+            let r = (|| -> Option<usize> {
+                let offer = offer.as_ref()?;
+                let (req, _md) = anoncreds::prover::create_credential_request(Some("entropy"), None, &c0.cred_def, &w.holders[0], "ls", offer).ok()?;
+                let mut req_h = 0usize;
+                unsafe { anoncreds_credential_request_from_json(buf(&serde_json::to_value(&req).ok()?), &mut req_h) };
+                let nc: Vec<CString> = ns.iter().map(|x| cs(x)).collect();
+                let np: Vec<*const c_char> = nc.iter().map(|c| c.as_ptr()).collect();
+                let rc_: Vec<CString> = rs.iter().map(|x| cs(x)).collect();
+                let rp: Vec<*const c_char> = rc_.iter().map(|c| c.as_ptr()).collect();
+                let mut ch = 0usize;
+                Some(unsafe { anoncreds_create_credential(l.cred_def0, cdp, offer_h, req_h, FfiList::of(&np), FfiList::of(&rp), FfiList::empty(), std::ptr::null(), &mut ch) })
+            })();
+            if let Some(rc) = r {
+                e_cases.push(format!("E {} {} () {}", sx::list(ns.iter(), |x| sx::s(x)), sx::list(rs.iter(), |x| sx::s(x)), if rc == 0 { "(ok ())" } else { "(err)" }));
+            }
+        }
+        for body in e_cases.drain(..) {
+            let id = out.next_id();
+            out.case(&format!("(C17 {} {})", id, body), "marshalling:encoded-values", || json!({"what": "encoded values rule"}));
         }
     }
     // accessors, conversions and revocation operations: the C ABI answers what the native API answers
@@ -624,6 +652,54 @@ pub fn run(tier: &str, _seed: u64, outdir: &str) {
             }
         }
         let _ = anoncreds_w3c_credential_from_json;
+    }
+    // presentation creation with two credentials: the prove list is a flat list of (credential entry, referent) records in
+    // ANY order; the result is the presentation the native API builds for the same mapping
+    {
+        let req2 = ReqSpec::new("80084").attr("a_name", "name").attr("a_zip", "Zip Code").pred("p_age", "age", ">=", 18).pred("p_sal", "salary", ">", 1000).build().unwrap();
+        let native = {
+            let mut pc: anoncreds::types::PresentCredentials<anoncreds::types::Credential> = anoncreds::types::PresentCredentials::default();
+            {
+                let mut a0 = pc.add_credential(&w.creds[0].legacy, None, None);
+                a0.add_requested_attribute("a_name", true);
+                a0.add_requested_predicate("p_age");
+            }
+            {
+                let mut a1 = pc.add_credential(&w.creds[2].legacy, None, None);
+                a1.add_requested_attribute("a_zip", true);
+                a1.add_requested_predicate("p_sal");
+            }
+            anoncreds::prover::create_presentation(&req2, pc, None, &w.holders[0], &w.schemas(), &w.cred_defs()).ok().map(|p| serde_json::to_value(&p).unwrap())
+        };
+        let mk = |f: unsafe extern "C" fn(ByteBuffer, *mut usize) -> usize, v: Value| -> usize { let mut h = 0usize; unsafe { f(buf(&v), &mut h) }; h };
+        let (s2, cd2, c2) = (mk(anoncreds_schema_from_json, serde_json::to_value(&w.cds[2].schema).unwrap()), mk(anoncreds_credential_definition_from_json, serde_json::to_value(&w.cds[2].cred_def).unwrap()), mk(anoncreds_credential_from_json, serde_json::to_value(&w.creds[2].legacy).unwrap()));
+        let rh = mk(anoncreds_presentation_request_from_json, serde_json::to_value(&req2).unwrap());
+        let (r_name, r_zip, r_age, r_sal) = (cs("a_name"), cs("a_zip"), cs("p_age"), cs("p_sal"));
+        let rec = |e: i64, r: &CString, pred: bool| FfiCredentialProve { entry_idx: e, referent: r.as_ptr(), is_predicate: pred as i8, reveal: 1 };
+        let orders: Vec<(&str, Vec<FfiCredentialProve>)> = vec![
+            ("grouped", vec![rec(0, &r_name, false), rec(0, &r_age, true), rec(1, &r_zip, false), rec(1, &r_sal, true)]),
+            ("second-credential-first", vec![rec(1, &r_zip, false), rec(1, &r_sal, true), rec(0, &r_name, false), rec(0, &r_age, true)]),
+            ("interleaved", vec![rec(0, &r_name, false), rec(1, &r_zip, false), rec(0, &r_age, true), rec(1, &r_sal, true)]),
+            ("interleaved-reversed", vec![rec(1, &r_sal, true), rec(0, &r_age, true), rec(1, &r_zip, false), rec(0, &r_name, false)]),
+        ];
+        let ls = cs(l.d["link_secret"].as_str().unwrap());
+        let (sid0, sid2, cid0c, cid2) = (cs(&w.cds[0].schema_id), cs(&w.cds[2].schema_id), cs(&w.cds[0].cred_def_id), cs(&w.cds[2].cred_def_id));
+        for (oname, prove) in orders.iter() {
+            let entries = [FfiCredentialEntry { credential: l.cred0, timestamp: -1, rev_state: 0 }, FfiCredentialEntry { credential: c2, timestamp: -1, rev_state: 0 }];
+            let mut ph = 0usize;
+            let rc = unsafe {
+                anoncreds_create_presentation(rh, FfiList::of(&entries), FfiList::of(prove), FfiList::empty(), FfiList::empty(), ls.as_ptr(),
+                    FfiList::of(&[l.schema, s2]), FfiList::of(&[sid0.as_ptr(), sid2.as_ptr()]), FfiList::of(&[l.cred_def0, cd2]), FfiList::of(&[cid0c.as_ptr(), cid2.as_ptr()]), &mut ph)
+            };
+            let got = if rc == 0 { get_json(ph) } else { None };
+            let same_shape = match (&got, &native) {
+                (Some(g), Some(n)) => g["requested_proof"] == n["requested_proof"] && g["identifiers"] == n["identifiers"],
+                _ => false,
+            };
+            let verifies = got.and_then(|g| serde_json::from_value::<anoncreds::data_types::presentation::Presentation>(g).ok())
+                .map(|p| vw::verify_legacy(&p, &req2, &ctx) == "accept").unwrap_or(false);
+            a(&format!("create_presentation:two-credentials-{}", oname), same_shape && verifies, &mut out);
+        }
     }
     // verification with interval overrides: every entry of the list reaches the verifier, grouped by registry
     {
